@@ -121,8 +121,7 @@ class SolverFacts:
                 facts = cfg.facts_at(n.id)
                 for test, label, of in reversed(facts):
                     if isinstance(test, ast.Compare) and label == "true":
-                        if any("TOL" in self.flow.roles(self.f, c) for c in test.comparators) \
-                                or "TOL" in self.flow.roles(self.f, test.left):
+                        if any(self.tol_kind(c) for c in [test.left] + list(test.comparators)):
                             self.tol_exits.append((of, n.id, test))
                             break
                     elif isinstance(test, ast.For):
@@ -132,11 +131,33 @@ class SolverFacts:
                         if not isinstance(test, ast.For):
                             break
 
+    def tol_kind(self, e, depth=0):
+        """'direct' for the solver's own tolerance (`self.tol`, or a local that is a plain copy of
+        it), 'derived' for a local computed from it (`tol = self.tol * max(1., stop_crit)`), else
+        None"""
+        if "TOL" in self.flow.roles(self.f, e):
+            return "direct" if isinstance(e, (ast.Attribute, ast.Name)) else "derived"
+        if isinstance(e, ast.Name) and depth < 3:
+            kinds = set()
+            for st in ast.walk(self.f.node):
+                if isinstance(st, ast.Assign) and len(st.targets) == 1 and isinstance(st.targets[0], ast.Name) \
+                        and st.targets[0].id == e.id:
+                    if "TOL" in self.flow.roles(self.f, st.value) and isinstance(st.value, ast.Attribute):
+                        kinds.add("direct")
+                    elif any("TOL" in self.flow.roles(self.f, x) or self.tol_kind(x, depth + 1)
+                             for x in ast.walk(st.value) if isinstance(x, (ast.Attribute, ast.Name)) and x is not st.value):
+                        kinds.add("derived")
+                    elif isinstance(st.value, ast.Name) and self.tol_kind(st.value, depth + 1):
+                        kinds.add(self.tol_kind(st.value, depth + 1))
+            if kinds:
+                return "direct" if kinds == {"direct"} else "derived"
+        return None
+
     def stop_name_in(self, cmp):
         """Name compared with self.tol in a tolerance test."""
         sides = [cmp.left] + list(cmp.comparators)
         for s in sides:
-            if isinstance(s, ast.Name):
+            if isinstance(s, ast.Name) and not self.tol_kind(s):
                 return s.id
         return None
 
